@@ -210,7 +210,7 @@ class Invert(Stream):
 
     def gen(self, rng, n):
         for i in range(n):
-            figs = THREE + FOUR if i % 8 else FIGURES
+            figs = (THREE + FOUR + ["5"]) if i % 8 else FIGURES
             e = rand_wext(rng, figs=figs, maxmod=2)
             e = {k: (sorted(v) if isinstance(v, list) else v) for k, v in e.items()}
             yield {"chord": chord_with(base_chord(rng), e), "k": rng.randrange(-9, 10), "k2": rng.randrange(-9, 10)}
@@ -226,7 +226,7 @@ class Invert(Stream):
             c12 = ch.invert(case["k"] + case["k2"])
             out["compose"] = [c2.extension, c12.extension]
             n = 4 if parse_ext_string(ch.extension)["fig"] in FOUR else 3
-            out["full_turn"] = [ch.invert(n).extension, ch.extension]
+            out["full_turn"] = [ch.invert(n).extension, ch["" + ch.extension[1:]].extension if ch.extension.startswith("5") else ch.extension]
             return out
         return mlang.guarded(f)
 
@@ -236,6 +236,8 @@ class Invert(Stream):
 
     def spec(self, case, r):
         c = case["chord"]
+        if c["fig"] == "5":
+            c = dict(c, fig="")            # the explicit root position triad inverts like ''
         fam = THREE if c["fig"] in THREE else FOUR if c["fig"] in FOUR else None
         if mlang.is_exc(r):
             if fam and nmods(c) == 0:
